@@ -106,3 +106,13 @@ Print Assumptions C18_flow_wf_eptres_ranges.
 Theorem C18_flow_eptmapresult_unpack_total : forall mf mfuel fuel data, len data < Z.of_nat mfuel -> run (W mf) fuel k_flow_eptmapresult_unpack [VO (OCls CEptMapResult); VB data] = lift_fst OEptMapResult (ept_map_result_unpack mfuel data).
 Proof. exact flow_eptmapresult_unpack_total. Qed.
 Print Assumptions C18_flow_eptmapresult_unpack_total.
+
+(* ---- flow: _client._process_ept_map_result itself (the function C18_port and C18_linear_process are about), regenerated as syntax on
+   every run (gen/F_online.v) and run in the world Flow/World_online.v (EptMapResult.unpack := ept_map_result_unpack with the model's loop
+   fuel efuel; isinstance(floor, TCPFloor) := the floor is a TCP floor), IS Epm.process_ept_map_result ---- *)
+From V Require Import gen.F_online Model.Conversation Flow.World_online Proofs.Flow_online_ept.
+Theorem C18_flow_process_ept_map_result : forall wrap unwrap prov legs dc efuel server username password auth_protocol tr fuel rsp,
+  run (WO wrap unwrap prov legs dc efuel server username password auth_protocol tr) fuel k_flow_process_ept_map_result [VO (World_online.OResp rsp)]
+  = (let* (p, _) := process_ept_map_result efuel (rs_stub_data rsp) in Ok (VI p)).
+Proof. exact flow_process_ept_map_result. Qed.
+Print Assumptions C18_flow_process_ept_map_result.
